@@ -6,6 +6,10 @@ commits no rounding), Float carrier for exp/logistic.  Observable: status, and v
 `precision` (bitwise equality recorded as a statistic).
 predicate: exact bracketing of the true root:  fn(x - precision) <= target <= fn(x)  (increasing),
 and for implied volatility |iv(price(sigma)) - sigma| <= precision.
+Further input classes (predicate only): precisions at / below the resolution of the bracket's dtype on
+an affine family whose float evaluation is exact (error or a point really within `precision`, judged
+with Fractions); prices that DECREASE in volatility (in-the-money binaries, user pricers through
+find_implied_volatility); modules built from a simulated derivative with the state omitted.
 """
 import math
 from fractions import Fraction as F
@@ -123,6 +127,71 @@ def mres(m):
     return ("bad", m)
 
 
+RESOLUTION_PRECISIONS = {
+    # spacing of the floats in [1, 2): 2^-23 = 1.19e-7 (float32), 2^-52 = 2.2e-16 (float64)
+    "float32": ([1e-9, 1e-10, 1e-8, 1e-7, 2.0 ** -30, 0.0], [2.0 ** -23, 1e-6, 1e-4]),
+    "float64": ([1e-18, 1e-17, 1e-16, 2.0 ** -60, 0.0], [2.0 ** -52, 1e-15, 1e-12, 1e-9]),
+}
+
+
+def gen_resolution_case(g):
+    """affine f_i(x) = a_i (x - c_i) on a bracket inside [1, 2] with a_i = +-2^j: x - c_i is exact in floating point for x, c_i in
+    [1, 2] (Sterbenz) and so is the scaling, hence every decision of the bisection is the decision of the exact function.  The
+    target a_i k 2^-e puts the true root c_i + k 2^-e strictly between two neighbouring floats of the bracket's dtype (k != 0)."""
+    target_dt = g.choice(["float32", "float64"])
+    # a bracket given as Python floats becomes a float32 tensor (torch.as_tensor) whatever the dtype of the targets
+    form = g.weighted([("tensor", 3), ("tensor0", 1), ("pyfloat", 1)])
+    bracket_dt = "float32" if form == "pyfloat" else target_dt
+    mant = MANT[bracket_dt]
+    n = g.small((1, 1, 2, 3, 4))
+    dec = g.chance(0.5)
+    per_elem = form == "tensor" and g.chance(0.5)
+    l0 = g.choice([F(1), F(5, 4), F(3, 2)])
+    u0 = l0 + g.choice([F(1, 4), F(1, 2)])
+    lower, upper, a, c, k, e = [], [], [], [], [], []
+    for i in range(n):
+        l, u = l0, u0
+        if per_elem:
+            l = g.choice([F(1), F(5, 4), F(3, 2)])
+            u = l + g.choice([F(1, 4), F(1, 2)])
+        lower.append(l)
+        upper.append(u)
+        a.append((-1 if dec else 1) * g.choice([F(1, 2), F(1), F(2), F(4)]))
+        c.append(l + (u - l) * F(g.randint(1, (1 << 12) - 1), 1 << 12))
+        k.append(g.choice([0, 1, -1, 1, -1, 3, -3, 5, -5]))
+        e.append(mant - 1 + g.randint(2, 9))
+    unreach, reach = RESOLUTION_PRECISIONS[bracket_dt]
+    prec = g.choice(unreach) if g.chance(0.7) else g.choice(reach)
+    max_iter = g.choice([100, 200, 1000])
+    if prec == 0.0 and g.chance(0.5):
+        max_iter = 1200            # more halvings than a double has exponents
+    return dict(target_dtype=target_dt, bracket_dtype=bracket_dt, form=form, dec=dec, lower=lower, upper=upper, a=a, c=c, k=k, e=e,
+                precision=prec, max_iter=max_iter)
+
+
+def run_resolution_case(torch, c):
+    from pfhedge._utils.bisect import bisect
+    tdt, bdt = getattr(torch, c["target_dtype"]), getattr(torch, c["bracket_dtype"])
+    A = torch.tensor([float(x) for x in c["a"]], dtype=tdt)
+    C = torch.tensor([float(x) for x in c["c"]], dtype=tdt)
+    target = torch.tensor([float(a * F(k, 1 << e)) for a, k, e in zip(c["a"], c["k"], c["e"])], dtype=tdt)
+    fn = lambda x: A * (x - C)
+    if c["form"] == "pyfloat":
+        lower, upper = float(c["lower"][0]), float(c["upper"][0])
+    elif c["form"] == "tensor0":
+        lower, upper = torch.tensor(float(c["lower"][0]), dtype=bdt), torch.tensor(float(c["upper"][0]), dtype=bdt)
+    else:
+        lower = torch.tensor([float(x) for x in c["lower"]], dtype=bdt)
+        upper = torch.tensor([float(x) for x in c["upper"]], dtype=bdt)
+    # the data is what the exact description says it is (nothing was rounded on the way into the tensors)
+    assert [F(x) for x in target.tolist()] == [a * F(k, 1 << e) for a, k, e in zip(c["a"], c["k"], c["e"])]
+    assert [F(x) for x in C.tolist()] == c["c"]
+    st, v, mut = call_impl(bisect, fn, target, lower, upper, precision=c["precision"], max_iter=c["max_iter"])
+    if st == "ok":
+        return ("ok", tensor_to_fracs(v.expand(len(c["a"])) if v.dim() == 0 else v), str(v.dtype).replace("torch.", "")), mut
+    return ("err", v, None), mut
+
+
 def check(ctx):
     torch, pfhedge = import_impl()
     g = ctx.gen
@@ -233,17 +302,24 @@ def check(ctx):
             ctx.disagree("bisect_float", case, got, mo)
     # ---------------- implied volatility round trip (predicate on the real modules)
     from pfhedge.nn import BSEuropeanOption, BSLookbackOption, BSEuropeanBinaryOption, BSAmericanBinaryOption
-    for _ in range(150 if ctx.tier == "quick" else 1000):
-        which = g.choice(["european", "european_put", "lookback", "binary", "american_binary"])
+    # the European binary price N(d2) (call) / 1 - N(d2) (put), d2 = s/w - w/2, w = sigma sqrt(t): for s >= 0 the call DEcreases and the
+    # put INcreases in sigma everywhere; for s < 0 the call increases and the put decreases while w^2 < -2s
+    BINARY_KINDS = ["binary_itm", "binary_atm", "binary_put_otm", "binary_put_itm"]
+    for _ in range(270 if ctx.tier == "quick" else 1800):
+        which = g.choice(["european", "european_put", "lookback", "binary", "american_binary"] + BINARY_KINDS)
         k = g.choice([0.5, 1.0, 2.0])
         sig = g.r.uniform(0.02, 0.95)
         t = g.choice([0.1, 0.5, 1.0, 2.0])
         dt = torch.float64
-        if which in ("binary", "american_binary"):
+        if which in ("binary", "american_binary", "binary_put_itm"):
             s = g.r.uniform(-0.3, -0.02)      # price monotone (increasing) in volatility only out of the money
-            if which == "binary":
+            if which != "american_binary":
                 # N(d2) increases in w = sigma sqrt(t) only while w^2 < -2s; keep the whole bracket (sigma<=1) there
                 t = -s
+        elif which in ("binary_itm", "binary_put_otm"):
+            s = g.r.uniform(0.0, 0.3)
+        elif which == "binary_atm":
+            s = 0.0
         else:
             s = g.r.uniform(-0.3, 0.3)
         S, T_, V = (torch.tensor([x], dtype=dt) for x in (s, t, sig))
@@ -264,6 +340,10 @@ def check(ctx):
                 iv = m.implied_volatility(S, M, T_, p, precision=prec)
             elif which == "binary":
                 m = BSEuropeanBinaryOption(strike=k)
+                p = m.price(S, T_, V)
+                iv = m.implied_volatility(S, T_, p, precision=prec)
+            elif which in BINARY_KINDS:
+                m = BSEuropeanBinaryOption(call="put" not in which, strike=k)
                 p = m.price(S, T_, V)
                 iv = m.implied_volatility(S, T_, p, precision=prec)
             else:
@@ -294,7 +374,153 @@ def check(ctx):
                 continue
             ctx.fail("implied volatility does not reproduce the generating volatility to the requested precision", case,
                      key=f"implied_volatility:{which}", detail={"iv": got, "precision": prec})
+    # ---------------- find_implied_volatility with user pricers that are monotone in volatility in either direction
+    from pfhedge._utils.bisect import find_implied_volatility
+    for _ in range(120 if ctx.tier == "quick" else 1200):
+        form = g.choice(["exp", "rational", "square", "affine"])
+        dec = g.chance(0.6)
+        n_ = g.small((1, 2, 3, 5))
+        A = [g.r.uniform(0.5, 3.0) for _ in range(n_)]
+        B = [g.r.uniform(0.5, 2.0) for _ in range(n_)]
+        sg = -1.0 if dec else 1.0
+        At, Bt = torch.tensor(A, dtype=torch.float64), torch.tensor(B, dtype=torch.float64)
+
+        # increasing base h(v) on [0.001, 1] with slope >= 0.1 there; the pricer is sg * A * h(B, v) (+ an offset parameter)
+        def h(b, v, tt):
+            if form == "exp":
+                return tt.exp(b * v)
+            if form == "rational":
+                return v / (b + v) + v
+            if form == "square":
+                return (v + b) * (v + b)
+            return b * v
+
+        def pricer(volatility, scale, shape, offset=0.0):
+            return sg * scale * h(shape, volatility, torch) + offset
+        off = g.choice([0.0, g.r.uniform(-1, 1)])
+        sigs = [g.r.uniform(0.002, 0.999) for _ in range(n_)]
+        price = torch.tensor([sg * a * h(b, v, math) + off for a, b, v in zip(A, B, sigs)], dtype=torch.float64)
+        prec = g.choice([1e-4, 1e-6, 1e-9])
+        st, val, _ = call_impl(find_implied_volatility, pricer, price, precision=prec, scale=At, shape=Bt, offset=off)
+        case = {"user_pricer": form, "decreasing": dec, "scale": A, "shape": B, "offset": off, "sigma": sigs, "precision": prec}
+        ctx.case(case, True, tag="find_iv_user_pricer")
+        ctx.stats[f"find_iv_decreasing={dec}"] += 1
+        ctx.traces += 1
+        direction = "decreasing" if dec else "increasing"
+        if st != "ok":
+            ctx.fail("find_implied_volatility raised for a price generated by the same (monotone) pricer", case,
+                     key=f"find_implied_volatility:{direction}:error", detail=val)
+            continue
+        got = [float(x) for x in val.tolist()]
+        for r, x in zip(sigs, got):
+            # slope >= 0.1 * 0.5, so the float evaluation of the pricer moves the root by < 1e-13
+            if not abs(x - r) <= prec * (1 + 1e-9) + 1e-12:
+                ctx.fail("find_implied_volatility does not recover the volatility that generated the price of a pricer that is "
+                         f"{direction} in volatility", case, key=f"find_implied_volatility:{direction}",
+                         detail={"sigma": r, "iv": x, "precision": prec})
+                break
+    # ---------------- modules built from a simulated derivative: the state (all of it, or a part) is taken from the derivative
+    from pfhedge.instruments import BrownianStock, EuropeanOption, LookbackOption
+    for _ in range(40 if ctx.tier == "quick" else 400):
+        which = g.weighted([("lookback", 3), ("european", 1), ("european_put", 1)])
+        sig = g.r.uniform(0.05, 0.9)
+        k = g.choice([0.9, 1.0, 1.05, 1.1, 1.25])
+        n_steps = g.randint(2, 8)
+        dt_ = g.choice([1 / 250, 1 / 50, 1 / 12])
+        n_paths = g.randint(2, 6)
+        seed = g.randint(0, 2 ** 31 - 1)
+        prec = g.choice([1e-6, 1e-9, 1e-4])
+        torch.manual_seed(seed)
+        stock = BrownianStock(sigma=sig, dt=dt_, dtype=torch.float64)
+        if which == "lookback":
+            deriv = LookbackOption(stock, strike=k, maturity=n_steps * dt_)
+            mod, ref = BSLookbackOption.from_derivative(deriv), BSLookbackOption(strike=k)
+            omit = g.choice(["all", "max_log_moneyness", "all_but_max"])
+        else:
+            deriv = EuropeanOption(stock, call=which == "european", strike=k, maturity=n_steps * dt_)
+            mod, ref = BSEuropeanOption.from_derivative(deriv), BSEuropeanOption(call=which == "european", strike=k)
+            omit = "all"
+        deriv.simulate(n_paths=n_paths)
+        case = {"which": which + ".from_derivative", "sigma": sig, "k": k, "n_steps": n_steps, "dt": dt_, "n_paths": n_paths,
+                "torch_seed": seed, "omitted": omit, "precision": prec}
+        S, T_ = deriv.log_moneyness(), deriv.time_to_maturity()
+        M = deriv.max_log_moneyness() if which == "lookback" else None
+        # explicit state, module without derivative: the pricing function whose volatility is to be recovered
+        reprice = (lambda vv: ref.price(S, M, T_, vv)) if which == "lookback" else (lambda vv: ref.price(S, T_, vv))
+        try:
+            p = mod.price()
+            if which != "lookback":
+                iv = mod.implied_volatility(price=p, precision=prec)
+            elif omit == "all":
+                iv = mod.implied_volatility(price=p, precision=prec)
+            elif omit == "max_log_moneyness":
+                iv = mod.implied_volatility(S, None, T_, p, precision=prec)
+            else:
+                iv = mod.implied_volatility(None, M, None, p, precision=prec)
+        except Exception as e:  # noqa
+            ctx.fail("implied_volatility raised for the price of a module built from a simulated derivative", case,
+                     key=f"implied_volatility:{which}:from_derivative:error", detail=repr(e)[:200])
+            continue
+        below_max = int(((M - S) > 0).sum()) if which == "lookback" else 0
+        ctx.case(case, True, tag="iv_from_derivative_" + which)
+        ctx.stats["iv_from_derivative_points_below_running_max"] += below_max
+        ctx.traces += 1
+        if not torch.allclose(p, reprice(torch.full_like(S, sig)), rtol=1e-12, atol=1e-14):
+            ctx.stats["iv_from_derivative_price_differs_from_explicit_state (skipped: premise of the round trip; C07/C18 matter)"] += 1
+            continue
+        # same predicate as above, element-wise over (path, time): within the requested precision of the underlier's volatility, or
+        # (no vega: at maturity, deep in / out of the money) any volatility that reproduces the price to float resolution
+        far = (iv - sig).abs() > 2 * prec
+        if bool(far.any()):
+            resid = (reprice(iv) - p).abs()
+            bad = far & ~(resid <= 1e-13 * max(k, 1.0))
+            ctx.stats["iv_ill_conditioned"] += int((far & ~bad).sum())
+            if bool(bad.any()):
+                i, j = [int(x) for x in bad.nonzero()[0]]
+                ctx.fail("implied volatility with the state taken from the derivative does not reproduce the underlier's volatility to the "
+                         "requested precision", case, key=f"implied_volatility:{which}:from_derivative:{omit}",
+                         detail={"path": i, "step": j, "iv": float(iv[i, j]), "log_moneyness": float(S[i, j]),
+                                 "max_log_moneyness": float(M[i, j]) if M is not None else None, "time_to_maturity": float(T_[i, j])})
+    # ---------------- precisions at / below the resolution of the bracket's dtype (exact affine family, judged with Fractions)
+    for _ in range(200 if ctx.tier == "quick" else 2500):
+        c = gen_resolution_case(g)
+        (st, val, odt), mut = run_resolution_case(torch, c)
+        canon = {k_: (enc_rat(v_) if isinstance(v_, list) and k_ not in ("k", "e") else v_) for k_, v_ in c.items()}
+        if mut:
+            ctx.mutated("bisect", mut, canon)
+        prec = F(c["precision"])
+        spacing = F(1, 1 << (MANT[c["bracket_dtype"]] - 1))      # of the floats in [1, 2), where the bracket lives
+        reachable = prec >= spacing
+        ctx.case(canon, True, tag="bisect_resolution")
+        ctx.stats[f"resolution:{c['bracket_dtype']}:{'reachable' if reachable else 'below-resolution'}:{st if st == 'ok' else val}"] += 1
+        ctx.traces += 1
+        roots = [ci + F(ki, 1 << ei) for ci, ki, ei in zip(c["c"], c["k"], c["e"])]
+        cls = "root" if reachable else "precision-below-resolution"
+        if st == "ok":
+            for i, (x, r) in enumerate(zip(val, roots)):
+                if isinstance(x, str) or abs(x - r) > prec:
+                    ctx.fail("bisect returned a point that is not within `precision` of the true root (it neither converged nor stopped "
+                             "with an error)" if not reachable else "bisect result is not within `precision` of the true root", canon,
+                             key=f"bisect:{c['bracket_dtype']}:{cls}",
+                             detail={"i": i, "x": rat_str(x), "true_root": rat_str(r), "|x-root|": float(abs(x - r)) if not isinstance(x, str) else x,
+                                     "precision": c["precision"], "float_spacing": float(spacing)})
+                    break
+            continue
+        if val != "runtime_error":
+            ctx.fail("bisect raised something else than RuntimeError on a monotone function with the target inside the range", canon,
+                     key=f"bisect:{c['bracket_dtype']}:{cls}:error", detail=val)
+            continue
+        # an error is the right outcome exactly when the precision cannot be reached within max_iter halvings
+        need, w = 0, max(u - l for l, u in zip(c["lower"], c["upper"]))
+        while reachable and w > prec:
+            w /= 2
+            need += 1
+        if reachable and need <= c["max_iter"]:
+            ctx.fail("bisect stopped with an error although the precision is reachable within max_iter", canon,
+                     key=f"bisect:{c['bracket_dtype']}:root:error", detail={"needed": need})
     return ctx.finish(
         rule="bisect on dyadic-coefficient affine/cubic/square families (increasing and decreasing, per-element coefficients, tensor and scalar "
              "brackets, targets at/near the bracket ends, precisions 2^-2..2^-20, max_iter in {0,3,100,1000}, lower>=upper), exp/logistic in floats, "
-             "implied-volatility round trips for the four BS modules; non-trivial = valid bracket; distinct = sha1 of canonical case")
+             "implied-volatility round trips for the four BS modules (European binary call/put on both sides of the money: increasing and decreasing in "
+             "volatility), find_implied_volatility on increasing/decreasing user pricers, modules built from simulated derivatives with omitted state, "
+             "precisions below the float32/float64 resolution on an exactly evaluated affine family; non-trivial = valid bracket; distinct = sha1 of canonical case")
